@@ -11,12 +11,14 @@ from lib.harness import Abandon
 ID = "C14"
 ALPHA = list("ab Z9_.-") + ['"', "'", "[", "]", "@", "|", "/", "&", "<", ">", "=", "(", ")", "*", ":", "é", "中", " ", "#", "\\", "{", "}", "$", ","]
 FRAGMENTS = ['x"] | //*[@a="', "' or '1'='1", '" or "1"="1', "a\"b'c", "true", "false", "a&amp;b", "]]>", "concat(", "text()", "//", "..", "1", "",
-             "it's", 'say "hi"', "a[1]", "@name", "a|b", "bébé", "名前", "a  b", " a ", "a<b>c"]
+             "it's", 'say "hi"', "a[1]", "@name", "a|b", "bébé", "名前", "a  b", " a ", "a<b>c",
+             "0", "2", "-1", "-2", "02", "1_0", "+1", "1e0", "0x1", "١", "3.0", "None"]
 RULE = (
     "H: identifiers over an alphabet rich in XPath/XML-significant characters (\", ', both, [ ] @ | / & < blanks non-ASCII, "
     "XPath fragments such as x\"] | //*[@a=\") filtered only by the respective setter (a setter raising ValueError/TypeError ends "
     "the case as trivial) x carriers with their lookups: table/get_table(name=), style/get_style(family,name) and display name, "
-    "bookmark (+start/end), reference mark (single/start/end)/get_reference_mark*, get_references(name), frame/get_frame(name=), "
+    "Document.get_table_style / get_table_displayed / set_table_displayed / get_cell_style_properties / get_cell_background_color by table name "
+    "(numeric-looking names included, wanted table between decoys and a filler), bookmark (+start/end), reference mark (single/start/end)/get_reference_mark*, get_references(name), frame/get_frame(name=), "
     "image/get_image(name=), draw page, variable decl/set, user field decl, user defined, named range, note id, annotation "
     "name/annotation end, link name/title, text change id, section, manifest path (get_media_type/set/del_full_path), user-defined "
     "metadata name. Oracle: with a decoy carrying a near-miss identifier present, the lookup returns the object whose XML "
@@ -53,7 +55,7 @@ def build(carrier, name, ds):
     from odfdo.note import Annotation, AnnotationEnd
     from odfdo.variable import UserDefined, UserFieldDecl, VarDecl, VarSet
 
-    doc = Document("text" if carrier not in ("table", "named_range", "named_range_table", "draw_page") else ("spreadsheet" if carrier != "draw_page" else "presentation"))
+    doc = Document("text" if carrier not in ("table", "table_doc", "named_range", "named_range_table", "draw_page") else ("spreadsheet" if carrier != "draw_page" else "presentation"))
     body = doc.body
     checks = []
     names = ds + [name]  # decoys first: a sloppy lookup returns a decoy
@@ -66,6 +68,26 @@ def build(carrier, name, ds):
         for n in names:
             body.append(Table(n, width=1, height=1))
         one("get_table(name=)", lambda d: d.body.get_table(name=name), "table:name")
+    elif carrier == "table_doc":
+        # Document-level methods taking "name or index of the table"; the wanted table sits after the decoys and before a filler,
+        # so that a name mistaken for a position (0, 1, -1, ...) lands on another table
+        from odfdo import Cell
+
+        body.clear()
+        for i, n in enumerate(names + ["Zfiller"]):
+            t = Table(n, width=1, height=1, style=f"tst{i}")
+            t.set_cell((0, 0), Cell("v", style=f"cst{i}"))
+            body.append(t)
+            doc.insert_style(Style("table", name=f"tst{i}", display="true"), automatic=True)
+            doc.insert_style(Element.from_tag(
+                f'<style:style style:name="cst{i}" style:family="table-cell"><style:table-cell-properties fo:background-color="#0000{i:02x}"/></style:style>'),
+                automatic=True)
+        k = len(names) - 1
+        one("get_table_style", lambda d: d.get_table_style(name), "style:name")
+        one("get_cell_background_color", lambda d: d.get_cell_background_color(name, (0, 0)), None)
+        one("get_cell_style_properties", lambda d: d.get_cell_style_properties(name, "A1").get("fo:background-color"), None)
+        one("get_table_displayed", lambda d: d.get_table_displayed(name), None)
+        checks.append(("$k", k, None))
     elif carrier == "named_range":
         body.clear()
         t = Table("T", width=2, height=2)
@@ -204,13 +226,13 @@ def build(carrier, name, ds):
     return doc, checks
 
 
-CARRIERS = ["table", "named_range", "named_range_table", "style", "style_auto", "bookmark", "bookmark_api", "refmark", "frame", "draw_page", "variable",
+CARRIERS = ["table", "table_doc", "named_range", "named_range_table", "style", "style_auto", "bookmark", "bookmark_api", "refmark", "frame", "draw_page", "variable",
             "user_field", "note", "annotation", "link", "section", "change", "manifest", "meta"]
 
 
 def run_case(case, ctx):
     carrier, name = case["carrier"], case["name"]
-    if carrier in ("table", "named_range", "named_range_table"):
+    if carrier in ("table", "table_doc", "named_range", "named_range_table"):
         # these setters store the stripped name: the stored form is the identifier
         name = name.strip()
         if not name:
@@ -234,12 +256,22 @@ def run_case(case, ctx):
     ctx.count("accepted:" + carrier)
 
     def judge(d, phase):
+        k = next((fn for label, fn, _q in checks if label == "$k"), None)
         for label, fn, qn in checks:
+            if label == "$k":
+                continue
             try:
                 got = fn(d)
             except Exception as e:
                 ctx.fail(("C14", carrier, "lookup-exception", label, type(e).__name__),
                          f"{label} with identifier {name!r} raised {type(e).__name__}: {str(e)[:200]} ({phase})", case)
+                continue
+            if carrier == "table_doc":
+                want = {"get_table_style": f"tst{k}", "get_cell_background_color": f"#0000{k:02x}", "get_cell_style_properties": f"#0000{k:02x}",
+                        "get_table_displayed": True}[label]
+                seen = attr(got, qn) if label == "get_table_style" else got
+                ctx.check(seen == want, ("C14", carrier, "wrong-object", label),
+                          f"{label}({name!r}) answered {seen!r}, the table of that name has {want!r} (tables: {ds + [name, 'Zfiller']!r}) ({phase})", case)
                 continue
             if label == "get_media_type":
                 ctx.check(got == "image/png", ("C14", carrier, "wrong-object", label), f"{label}({name!r}) = {got!r} ({phase})", case)
@@ -270,6 +302,23 @@ def run_case(case, ctx):
                       f"{label}({want!r}) returned {None if got is None else attr(got, qn)!r} with decoys {ds!r} present ({phase})", case)
 
     judge(doc, "in memory")
+    if carrier == "table_doc":
+        with ctx.guard(("C14", carrier, "set_table_displayed"), case):
+            doc.set_table_displayed(name, False)
+            root = odfread.parse(doc.content.serialize())
+            shown = {}
+            for t in root.iter(odfread.T_TABLE):
+                sn = t.get(odfread.q("table:style-name"))
+                disp = "true"
+                for st_ in root.iter(odfread.q("style:style")):
+                    if st_.get(odfread.q("style:name")) == sn:
+                        for tp in st_.iter(odfread.q("style:table-properties")):
+                            disp = tp.get(odfread.q("table:display"), "true")
+                shown[t.get(odfread.q("table:name"))] = disp
+            wrong = {n: v for n, v in shown.items() if v != ("false" if n == name else "true")}
+            ctx.check(not wrong, ("C14", carrier, "wrong-object", "set_table_displayed"),
+                      f"set_table_displayed({name!r}, False) left table:display = {shown!r}", case)
+        return
     if carrier == "manifest":
         with ctx.guard(("C14", carrier, "del_full_path"), case):
             doc.manifest.del_full_path("Pictures/" + name)
